@@ -154,6 +154,24 @@ package resp
 // chunk is never empty - an empty chunk is the end-of-body mark and belongs to Finalize alone.
 //@ ghost var cwHdr int
 //@ ghost var cwCL int
+// Finalize (its once-body): the header goes out first when no Write has sent it (announcing chunked framing), then
+// exactly one terminating empty chunk, and the trailer only after that chunk was written without error.
+//@ ghost var cwEnd int
+//@ func chunkedBodyWriter.Finalize$1()
+//@   props C04
+//@   abstract
+//@   noinline
+//@   modifies cwHdr, cwCL, cwEnd
+//@   ghostset-at-entry cwHdr = 0
+//@   ghostset-at-entry cwCL = -5
+//@   ghostset-at-entry cwEnd = 0
+//@   ghostset after ResponseHeader.SetContentLength: cwCL = arg1
+//@   assert before WriteHeader: cwHdr == 0 && cwCL == -1 && cwEnd == 0
+//@   ghostset after WriteHeader: cwHdr = ite(result == nil, 1, -1)
+//@   assert before WriteChunk: cwHdr >= 0 && cwEnd == 0 && len(arg1) == 0 && arg2
+//@   ghostset after WriteChunk: cwEnd = ite(result == nil, 1, -1)
+//@   assert before WriteTrailer: cwEnd == 1
+
 //@ func chunkedBodyWriter.Write(c, p) n, err
 //@   props C04
 //@   abstract
